@@ -168,6 +168,7 @@ def run(run):
     run.pmap("consistent_with", consistency_pairs, cn)
     items = sweep.make_items(run, ["Copeland"], [chk_parfront], flags=(True,), light=light, heavy=light,
                              strata={"*": ["cycles3", "comp3plus1"]})
+    items += sweep.history_items(run, ["Copeland"], [chk_parfront], 40 if run.thorough else 12)
     run.pmap("parfront", sweep.run_item, sweep.order_items(items), chunksize=2)
     symb = [(2, 2), (3, 1), (3, 2), (2, 3)] + ([(3, 3), (4, 1)] if run.thorough else [])
     run.bounds["parfront on symbolic datasets [S over datasets and schemes] (n, m)"] = symb
@@ -195,7 +196,7 @@ def replay(p):
     from corankco.dataset import Dataset
     from corankco.scoringscheme import ScoringScheme
     sc = ScoringScheme([[float(x) for x in v] for v in p["scheme"]])
-    ds = Dataset.from_raw_list(shapes.from_json(p["rankings"]))
+    ds = sweep.replay_dataset(p, sc)
     names, lvs = sweep.concrete_levels(p)
     try:
         pf = [set(el.value for el in g) for g in OrderedPartition.parfront_partition(ds, sc)]
